@@ -39,6 +39,7 @@ fn bv_of_lt(l: &Lifetime<VerifIr>) -> Option<BoundVar> {
 /// generic fold driver on the parameter; even for a one-leaf parameter CBMC does not
 /// finish within 7 minutes, so it is not covered: recorded in DESIGN.md.)
 #[kani::proof]
+#[kani::unwind(3)]
 fn k2s_subst_outer_var_ty() {
     let params: [GenericArg<VerifIr>; 0] = [];
     let mut s = Subst { parameters: &params, interner: VerifIr };
@@ -46,7 +47,8 @@ fn k2s_subst_outer_var_ty() {
     let ob: u32 = kani::any();
     kani::assume((d - 1) as u64 + ob as u64 <= u32::MAX as u64);
     let idx: usize = kani::any();
-    let r = TypeFolder::fold_free_var_ty(&mut s, BoundVar::new(DebruijnIndex::new(d), idx), DebruijnIndex::new(ob));
+    // (never dropped: the recursive drop glue of `Ty` makes CBMC time out, DESIGN P15)
+    let r = core::mem::ManuallyDrop::new(TypeFolder::fold_free_var_ty(&mut s, BoundVar::new(DebruijnIndex::new(d), idx), DebruijnIndex::new(ob)));
     let rb = bv_of_ty(&r);
     assert!(rb.is_some());
     let rb = rb.unwrap();
@@ -54,6 +56,7 @@ fn k2s_subst_outer_var_ty() {
 }
 
 #[kani::proof]
+#[kani::unwind(3)]
 fn k2s_subst_outer_var_lifetime() {
     let params: [GenericArg<VerifIr>; 0] = [];
     let mut s = Subst { parameters: &params, interner: VerifIr };
@@ -61,7 +64,7 @@ fn k2s_subst_outer_var_lifetime() {
     let ob: u32 = kani::any();
     kani::assume((d - 1) as u64 + ob as u64 <= u32::MAX as u64);
     let idx: usize = kani::any();
-    let r = TypeFolder::fold_free_var_lifetime(&mut s, BoundVar::new(DebruijnIndex::new(d), idx), DebruijnIndex::new(ob));
+    let r = core::mem::ManuallyDrop::new(TypeFolder::fold_free_var_lifetime(&mut s, BoundVar::new(DebruijnIndex::new(d), idx), DebruijnIndex::new(ob)));
     let rb = bv_of_lt(&r);
     assert!(rb.is_some());
     let rb = rb.unwrap();
